@@ -18,3 +18,5 @@ pub mod vars;
 pub mod verifier;
 #[cfg(feature = "verif_hooks")]
 pub mod verif_hooks;
+#[cfg(feature = "verif_hooks")]
+pub mod verif_knobs;
